@@ -34,12 +34,18 @@ Moves of one scheduling step (this order; choice 0 is always first):
        ('xdel', path)  one external deletion of an existing presence node
   When 1.+2. are empty the system is quiescent: choice 0 is 'stop'.
 
-Exploration: stateless DFS, every schedule re-executed from scratch from its
-choice prefix (out-of-range choice / different step fingerprint = hard error);
-iterative preemption bounding in rounds: round b executes exactly the schedules
-with b preemptions, its start items are the children round b-1 could not
-afford.  Rounds are sharded over forked workers by schedule prefix.  No
-visited-state pruning: every schedule within the bounds is executed.
+Exploration: every schedule is re-executed from scratch from its choice prefix
+(out-of-range choice / different step fingerprint = hard error).
+  explore()         stateless DFS without any pruning, iterative preemption
+                    bounding in rounds: round b executes exactly the schedules
+                    with b preemptions, its start items are the children
+                    round b-1 could not afford; sharded over forked workers by
+                    schedule prefix.
+  explore_states()  the same DFS without a preemption bound, cut at canonical
+                    states already visited (shared-memory table); soundness
+                    argument in its docstring.
+
+Oracle (World._absorb_log / check_ref / check_quiescent): see mc/props/c17.py.
 """
 import itertools
 import json
@@ -104,6 +110,10 @@ CONFIGS = {
     'P4': {'nodes': [('A', 'hosta', [('create', 'g1'), ('delete', 'g1')]),
                      ('B', 'hostb', [('create', 'g2'), ('delete', 'g2')]),
                      ('C', 'hostc', [('create', 'g4')])]},
+    # two generations on A while B registers and cleans up
+    'P6': {'nodes': [('A', 'hosta', [('create', 'g1'), ('create', 'g3'),
+                                     ('delete', 'g1')]),
+                     ('B', 'hostb', [('create', 'g2'), ('delete', 'g2')])]},
     # same-host generations only (restart / re-issue order)
     'P5': {'nodes': [('A', 'hosta', [('create', 'g1'), ('create', 'g3'),
                                      ('delete', 'g1')])]},
@@ -166,7 +176,7 @@ class Node:
     __slots__ = ('name', 'host', 'program', 'pc', 'reissue', 'retries',
                  'live', 'status', 'sid', 'client', 'svc', 'glet', 'cur',
                  'pending', 'seen', 'incarnation', 'result', 'error',
-                 'journal', 'start_presence')
+                 'journal', 'start_presence', 'first_op')
 
     def __init__(self, name, host, program):
         self.name = name
@@ -186,6 +196,7 @@ class Node:
         self.seen = {}          # path -> [owner at own last get, xdel since?]
         self.journal = []       # (op, path, node state the op found) this request
         self.start_presence = None   # svc.presence when the request started
+        self.first_op = None
         self.incarnation = 0
         self.result = None
         self.error = None
@@ -239,10 +250,12 @@ class World:
             self._new_session(n)
         self.tree.hook = self._hook
         self.ref = {}           # path -> (node name, cname, gen, payload)
-        self.last_write = {}    # path -> (site, label) of the last set/delete
+        self.culprit = {}       # path -> (site, op): first write that broke
+                                # the reference entry now standing for path
         self.touched = {}       # path -> set of node names that operated on it
         self.xdel_used = False
         self.exempt = {}        # path deleted externally -> node that owned it
+        self.started = None
         self.step = 0
         self.tr = Trace()
         self.reported = set()
@@ -353,7 +366,7 @@ class World:
                     n.status.pop(cname, None)
                     for p in [p for p, r in self.ref.items()
                               if r[0] == n.name and r[1] == cname]:
-                        del self.ref[p]
+                        self._unref(p)
                 self._start(n, what, cname, 'program')
             return n.name
         if kind == 'retry':
@@ -361,6 +374,8 @@ class World:
             rid = n.retries.pop(0)
             cname = BY_RID[rid]
             if cname not in n.live:
+                self.started = 'retry of %s dropped: request gone' % cname
+                n.first_op = None
                 self.count('retries_dropped_request_gone')
             else:
                 self.count('retries_processed')
@@ -390,7 +405,7 @@ class World:
             self.tree.expire(n.sid)
             self._absorb_log(None, None)
             for p in [p for p, r in self.ref.items() if r[0] == n.name]:
-                del self.ref[p]
+                self._unref(p)
             for p in [p for p, o in self.exempt.items() if o == n.name]:
                 del self.exempt[p]
             n.status.clear()
@@ -404,6 +419,7 @@ class World:
             path = move[1]
             self.tr.dev += 1
             self.xdel_used = True
+            self._unref(path)
             self.count('external_deletions')
             owner = self.by_sid.get(self.tree.find(path).owner)
             if owner is not None:
@@ -415,7 +431,6 @@ class World:
             for n in self.nodes:
                 if path in n.seen:
                     n.seen[path][1] = True
-            self.ref.pop(path, None)
             self._absorb_log(None, None)
             return None
         raise HarnessError('unknown move %r' % (move,))
@@ -425,6 +440,16 @@ class World:
         c = CONTAINERS[cname]
         svc = n.svc
         n.cur = (what, cname, why)
+        if what == 'create':
+            # successive containers of one instance: the newer one supersedes
+            # what older generations registered on this node from the moment
+            # a create request for it is being processed (program, re-issue
+            # or retry)
+            gen = c['gen']
+            for p in [p for p, r in self.ref.items()
+                      if r[0] == n.name and r[2] < gen]:
+                self._unref(p)
+        self.started = '%s %s, %s' % n.cur
         n.seen = {}
         n.journal = []
         n.start_presence = presence_key(svc)
@@ -445,6 +470,7 @@ class World:
         n.glet = greenlet.greenlet(body, parent=self.main)
         n.pending = None
         n.glet.switch()                   # local prologue, up to the first call
+        n.first_op = n.pending
         if n.glet.dead:
             self._finished(n)
         else:
@@ -466,8 +492,9 @@ class World:
              if node.owner in self.by_sid else node.owner))
         if op == 'get':
             n.seen[path] = [node.owner if node is not None else None, False]
-        elif op == 'DataWatch':
-            self.tr.contended = True
+        elif op == 'create' and node is not None and node.owner and \
+                node.owner != n.sid and self.tree.sessions.get(node.owner):
+            self.tr.contended = True    # wanted node held by a live stranger
         n.pending = None
         n.glet.switch()
         self._absorb_log(n, site)
@@ -503,7 +530,6 @@ class World:
             by, op, path, owner = log[self.log_seen]
             self.log_seen += 1
             if by is None or by == ADMIN_SID:
-                self.last_write[path] = ('environment', op)
                 continue
             actor = self.by_sid.get(by)
             if op == 'create':
@@ -516,7 +542,9 @@ class World:
                         {'path': path, 'session': by,
                          'owner': None if node is None else node.owner})
                 continue
-            self.last_write[path] = (site, op)
+            if path in self.ref and path not in self.culprit:
+                self.culprit[path] = (self._culprit_site(actor, site, op,
+                                                         path), op)
             if owner and owner != by and self.tree.sessions.get(owner):
                 seen = actor.seen.get(path) if actor is not None else None
                 if seen is not None and seen[0] == by and seen[1]:
@@ -528,7 +556,7 @@ class World:
                     victim = self.by_sid.get(owner)
                     if victim is not None:
                         self.exempt[path] = victim.name
-                    self.ref.pop(path, None)
+                    self._unref(path)
                     continue
                 self.violate(
                     'touched-foreign-node', site,
@@ -539,6 +567,36 @@ class World:
                      if owner in self.by_sid else None,
                      'request': list(actor.cur) if actor and actor.cur
                      else None})
+
+    def _unref(self, path):
+        self.ref.pop(path, None)
+        self.culprit.pop(path, None)
+
+    def _culprit_site(self, actor, site, op, path):
+        """Site of a write that breaks a reference entry.  A delete issued
+        by a delete request is qualified by what the service's own table said
+        when the request started: the node was registered to the container
+        being deleted (the table was wrong before) or to another container
+        (the request deleted more than its own nodes)."""
+        if actor is None or not actor.cur:
+            return site
+        entry = self.ref.get(path)
+        if op == 'set' and actor.cur[0] == 'create' and entry is not None \
+                and entry[0] == actor.name and \
+                CONTAINERS[actor.cur[1]]['gen'] < entry[2]:
+            # a create of an OLDER container of the instance, processed after
+            # the newer one registered, rewrites the newer one's node
+            return site + ':by-older-container'
+        if op != 'delete' or actor.cur[0] != 'delete':
+            return site
+        rid = CONTAINERS[actor.cur[1]]['rid']
+        reg = None
+        for _app, items in actor.start_presence or ():
+            for p, r in items:
+                if p == path:
+                    reg = r
+        return site + (':registered-to-deleted-container' if reg == rid
+                       else ':registered-to-other-container')
 
     def _registered(self, n, cname):
         gen = CONTAINERS[cname]['gen']
@@ -554,10 +612,11 @@ class World:
                     continue
                 if cur[0] != n.name:
                     self._lost(path, cur, 'another node registered the path')
+            self.culprit.pop(path, None)
             self.ref[path] = (n.name, cname, gen, payload)
 
     def _lost(self, path, entry, how):
-        site, op = self.last_write.get(path, ('never-written', None))
+        site, op = self.culprit.get(path, ('unknown', None))
         nname, cname, _gen, payload = entry
         node = self.tree.find(path)
         clause = 'registration-lost'
@@ -569,8 +628,8 @@ class World:
              'expected': payload,
              'found': None if node is None else
              {'data': node.data, 'owner_session': node.owner},
-             'last_write': op})
-        self.ref.pop(path, None)
+             'broken_by': op})
+        self._unref(path)
 
     def check_ref(self):
         """Reference table: every successfully registered, not deleted
@@ -588,10 +647,14 @@ class World:
                 self._lost(path, entry, 'data differ')
 
     def check_quiescent(self):
-        """No regular move is enabled.  A create that is still waiting must be
-        waiting for something: the first node it lacks exists, belongs to
-        another live session and carries this session's watch; and the
-        wait-for relation has no cycle."""
+        """No regular move is enabled.  A create that was told to wait must be
+        waiting for something: one of its nodes exists, belongs to another
+        live session and carries an armed watch of this request (the node's
+        deletion re-runs the whole request); and the wait-for relation between
+        requests has no cycle.  Both are reported only for executions without
+        an external deletion (an administrator deleting one node of a
+        half-registered container can make two containers hold one node each
+        of the other's set: outside the statement's quantifier, counted)."""
         self.check_ref()
         waits = {}
         for n in self.nodes:
@@ -603,28 +666,39 @@ class World:
                     self.violate('request-never-processed', 'harness',
                                  {'node': n.name, 'container': cname})
                     continue
+                # it must be waiting FOR something: an armed watch of this
+                # request on a node that exists and belongs to another live
+                # session (its deletion re-runs the whole request)
                 blocked = None
                 for path, _payload in container_paths(n.host, cname):
                     node = self.tree.find(path)
-                    if node is None or node.owner != n.sid:
-                        blocked = (path, node)
+                    if node is None or node.owner == n.sid or \
+                            not self.tree.sessions.get(node.owner):
+                        continue
+                    for c, cb in self.tree.data_watches.get(path, ()):
+                        if c.sid == n.sid and _watch_key(cb) == (cname, False):
+                            blocked = (path, node)
+                            break
+                    if blocked:
                         break
                 if blocked is None:
-                    # it owns everything but was told to wait
-                    self.violate('lost-wakeup', '_safe_create',
-                                 {'node': n.name, 'container': cname,
-                                  'why': 'waiting although it owns all nodes'})
+                    clause = 'lost-wakeup'
+                    if self.xdel_used:
+                        self.count('lost_wakeup_after_external_delete')
+                    else:
+                        self.violate(
+                            clause, '_watch',
+                            {'node': n.name, 'container': cname,
+                             'why': 'create replied "wait" but no armed watch '
+                                    'of this request sits on a node owned by '
+                                    'another live session',
+                             'nodes': {p: None if self.tree.find(p) is None
+                                       else self._owner_name(
+                                           self.tree.find(p).owner)
+                                       for p, _x in
+                                       container_paths(n.host, cname)}})
                     continue
                 path, node = blocked
-                armed = any(c.sid == n.sid for c, _cb in
-                            self.tree.data_watches.get(path, ()))
-                if node is None or not armed:
-                    self.violate(
-                        'lost-wakeup', '_watch' if node is not None
-                        else '_safe_create',
-                        {'node': n.name, 'container': cname, 'path': path,
-                         'node_exists': node is not None, 'watch_armed': armed})
-                    continue
                 holder = self.by_sid.get(node.owner)
                 if holder is not None:
                     app = appcfg.app_name(CONTAINERS[cname]['rid'])
@@ -636,6 +710,9 @@ class World:
             while cur in waits and hops <= len(waits):
                 cur = waits[cur]
                 hops += 1
+                if cur == start and self.xdel_used:
+                    self.count('circular_wait_after_external_delete')
+                    break
                 if cur == start:
                     self.violate('circular-wait', '_safe_create',
                                  {'cycle_from': list(start),
@@ -689,7 +766,7 @@ class World:
                           tuple(n.live), tuple(sorted(n.status.items())),
                           presence_key(n.svc), flight))
         oracle = (tuple(sorted(self.ref.items())),
-                  tuple(sorted(self.last_write.items())),
+                  tuple(sorted(self.culprit.items())),
                   self.tr.dev, self.xdel_used,
                   tuple(sorted(self.exempt.items())))
         return (tree, tuple(watches), pend, tuple(nodes), oracle)
@@ -725,14 +802,14 @@ def label_of(move):
 
 
 def execute(cfgname, prefix, max_dev, want_labels=False, xdel=True,
-            visited=None, fresh=None):
+            seen=None):
     """Run ONE schedule: replay `prefix`, then always choice 0.
 
-    With `visited` (a set of state hashes) the execution is cut as soon as a
-    step taken at or after the end of the prefix leads to a state already in
-    `visited`/`fresh`; states reached for the first time are added to
-    `fresh`.  tr.cut is the index of the step whose successor was known
-    (alternatives are generated only for steps <= cut)."""
+    With `seen` (a visited-state table, see StateTable) the execution is cut
+    as soon as a step taken at or after the end of the prefix leads to a state
+    already in the table; states reached for the first time are added.
+    tr.cut is the index of the step whose successor was known (alternatives
+    are generated only for steps <= cut)."""
     w = World(cfgname, max_dev, want_labels, xdel)
     tr = w.tr
     last = None
@@ -776,19 +853,17 @@ def execute(cfgname, prefix, max_dev, want_labels=False, xdel=True,
         who = w.apply(move)
         if want_labels and move[0] in ('next', 'retry'):
             nn = w.by_name[move[1]]
-            tr.labels[-1] += '  %s' % (
-                '%s %s (%s)' % nn.cur if nn.cur else
-                'request finished: ' + repr(nn.status))
+            tr.labels[-1] += '  [%s]%s' % (
+                w.started, '  -> %s %s [%s]' % nn.first_op
+                if nn.first_op else '  (no ZooKeeper call)')
         if who is not None:
             last = who
-        if visited is not None and i >= plen - 1:
-            h = hash(w.key())
-            if h in visited or h in fresh:
+        if seen is not None and i >= plen - 1:
+            if not seen.add(hash(w.key())):
                 tr.cut = i
                 tr.complete = False
                 w.kill()
                 break
-            fresh.add(h)
         i += 1
         if i > 400:
             raise HarnessError('execution longer than 400 steps')
@@ -808,12 +883,15 @@ def _note_violations(out, tr):
         cur = out['violations'].get(key)
         cand = (tr.pre + tr.dev, n, list(tr.choices))
         if cur is None:
-            out['violations'][key] = {'v': v, 'count': 1, 'best': cand}
+            cur = out['violations'][key] = {'v': v, 'count': 1, 'best': cand,
+                                            'best0': None}
         else:
             cur['count'] += 1
             if cand < cur['best']:
                 cur['best'] = cand
                 cur['v'] = v
+        if tr.dev == 0 and (cur['best0'] is None or cand < cur['best0']):
+            cur['best0'] = cand     # simplest case without any deviation
 
 
 def _new_out():
@@ -894,6 +972,9 @@ def _merge(res, out):
             if rec['best'] < cur['best']:
                 cur['best'] = rec['best']
                 cur['v'] = rec['v']
+            if rec['best0'] is not None and (cur['best0'] is None or
+                                             rec['best0'] < cur['best0']):
+                cur['best0'] = rec['best0']
 
 
 def _new_res(cfgname, max_dev):
@@ -975,23 +1056,62 @@ def explore(cfgname, max_dev, max_bound, workers, time_cap, log, xdel=True):
 # ---------------------------------------------------------------------------
 # mode B: the same DFS with visited-state pruning (no preemption bound)
 # ---------------------------------------------------------------------------
-VISITED = set()      # parent's set; forked workers inherit it copy-on-write
+class StateTable:
+    """Set of 64-bit state hashes in shared memory (open addressing), written
+    by all forked workers without locks.  add(h) -> True iff h was not there.
+    A race can only lose an entry or let two workers both see 'new' - then a
+    state is expanded twice; it can never report an unseen state as seen,
+    which is what the soundness of the pruning needs (aligned 8-byte stores
+    are atomic; a slot only ever holds 0 or a complete hash)."""
+
+    def __init__(self, bits=22):
+        import ctypes
+        self.size = 1 << bits
+        self.mask = self.size - 1
+        self.slots = multiprocessing.RawArray(ctypes.c_uint64, self.size)
+        self.added = 0
+
+    def add(self, h):
+        h &= 0xFFFFFFFFFFFFFFFF
+        if h == 0:
+            h = 1
+        slots = self.slots
+        i = (h ^ (h >> 29)) & self.mask
+        probes = 0
+        while True:
+            v = slots[i]
+            if v == h:
+                return False
+            if v == 0:
+                slots[i] = h
+                self.added += 1
+                return True
+            i = (i + 1) & self.mask
+            probes += 1
+            if probes > 4096:
+                raise HarnessError('state table full')
+
+    def count(self):
+        import numpy as np
+        return int(np.count_nonzero(np.frombuffer(self.slots, dtype=np.uint64)))
+
+
+TABLE = None         # allocated by the parent before the pool is forked
 
 
 def _work_states(chunk):
     cfgname, max_dev, items, deadline, max_runs, xdel = chunk
     out = _new_out()
-    out['fresh'] = fresh = set()
     out['left'] = []
     stack = list(items)
-    visited = VISITED
+    table = TABLE
+    added0 = table.added
     while stack:
         if out['runs'] >= max_runs or time.perf_counter() > deadline:
             out['left'] = stack
             break
         prefix = stack.pop()
-        tr = execute(cfgname, prefix, max_dev, xdel=xdel, visited=visited,
-                     fresh=fresh)
+        tr = execute(cfgname, prefix, max_dev, xdel=xdel, seen=table)
         _account(out, tr)
         n = len(tr.choices)
         # alternatives belong to the state BEFORE a step; that state is new
@@ -1003,11 +1123,12 @@ def _work_states(chunk):
             head = choices[:i]
             for alt in range(1, total):
                 stack.append(head + bytes((alt,)))
+    out['added'] = table.added - added0
     return out
 
 
 def explore_states(cfgname, max_dev, workers, time_cap, log, xdel=True,
-                   runs_per_chunk=400):
+                   runs_per_chunk=250, table_bits=22):
     """Reachability over canonical states, unbounded preemptions.
 
     Soundness of the pruning (DESIGN 2.4): World.key() contains the whole
@@ -1020,62 +1141,84 @@ def explore_states(cfgname, max_dev, workers, time_cap, log, xdel=True,
     (request, `presence` at its start, every ZooKeeper call made so far with
     the node state the call found) of which the continuation of the
     deterministic handler is a function, and the oracle's own memory
-    (reference table, last writer per path, deviations used).  Session ids are
-    replaced by node names: the code only compares them for equality.  Two
-    executions that reach the same key therefore have the same set of futures
-    and the same verdicts on them, so the futures of a key are explored once.
-    Moves cost nothing here, so `last` (preemption accounting) is not part of
-    the key.  Rounds: forked workers inherit the parent's visited set, run a
-    bounded number of executions each, return their new states and their
-    unexplored prefixes; the parent merges and starts the next round."""
-    global VISITED              # pylint: disable=global-statement
+    (reference table, exemptions, last writer per path, deviations used).
+    Session ids are replaced by node names: the code only compares them for
+    equality.  Two executions that reach the same key therefore have the same
+    set of futures and the same verdicts on them, so the futures of a key are
+    explored once.  Moves cost nothing here, so `last` (preemption accounting)
+    is not part of the key.  All workers share one visited table; work is
+    re-balanced in rounds (every worker returns its unexplored prefixes after
+    a bounded number of executions)."""
+    global TABLE                # pylint: disable=global-statement
     t0 = time.perf_counter()
     deadline = t0 + time_cap
     res = _new_res(cfgname, max_dev)
-    res.update({'rounds': 0, 'exhaustive': False})
-    VISITED = set()
+    res.update({'rounds': 0, 'exhaustive': False, 'expanded_twice': 0})
+    TABLE = StateTable(table_bits)
+    added = 0
     items = [b'']
-    while items:
-        if time.perf_counter() > deadline:
-            res['caps_hit'].append(
-                '%s state search: time cap %.0fs with %d unexplored prefixes'
-                % (cfgname, time_cap, len(items)))
-            break
-        nchunks = max(1, min(len(items), workers * 4))
-        per = runs_per_chunk if len(items) >= workers else 40
-        chunks = [(cfgname, max_dev, items[k::nchunks], deadline, per, xdel)
-                  for k in range(nchunks)]
-        pool = make_pool(workers) if len(chunks) > 1 else None
-        try:
-            if pool is not None:
-                outs = pool.imap_unordered(_work_states, chunks)
-            else:
+    pool = None
+    try:
+        while items:
+            if time.perf_counter() > deadline:
+                res['caps_hit'].append(
+                    '%s state search: time cap %.0fs with %d unexplored '
+                    'prefixes' % (cfgname, time_cap, len(items)))
+                break
+            if res['rounds'] == 0 or workers <= 1 or len(items) < 2:
+                # seed phase: a few executions in this process
+                chunks = [(cfgname, max_dev, items, deadline,
+                           30 if workers > 1 else 10 ** 9, xdel)]
                 outs = (_work_states(c) for c in chunks)
+            else:
+                if pool is None:
+                    pool = make_pool(workers)
+                nchunks = min(len(items), workers * 3)
+                per = runs_per_chunk if len(items) >= workers * 3 else 40
+                chunks = [(cfgname, max_dev, items[k::nchunks], deadline,
+                           per, xdel) for k in range(nchunks)]
+                outs = pool.imap_unordered(_work_states, chunks)
             nxt = []
             for out in outs:
                 _merge(res, out)
-                VISITED |= out['fresh']
+                added += out['added']
                 nxt.extend(out['left'])
-        finally:
-            if pool is not None:
-                pool.terminate()
-                pool.join()
-        res['rounds'] += 1
-        items = nxt
-        if res['rounds'] % 10 == 0:
-            log('%s state search dev<=%d: round %d, %d states, %d executions,'
-                ' %d prefixes left' % (cfgname, max_dev, res['rounds'],
-                                       len(VISITED), res['runs'], len(items)))
-    else:
-        res['exhaustive'] = True
-    res['states'] = len(VISITED)
-    VISITED = set()
+            res['rounds'] += 1
+            items = nxt
+            if res['rounds'] % 20 == 0:
+                log('%s state search dev<=%d: round %d, %d executions, %d '
+                    'prefixes left' % (cfgname, max_dev, res['rounds'],
+                                       res['runs'], len(items)))
+        else:
+            res['exhaustive'] = True
+    finally:
+        if pool is not None:
+            pool.terminate()
+            pool.join()
+    res['states'] = TABLE.count() + 1          # + the initial state
+    res['expanded_twice'] = max(0, added - (res['states'] - 1))
+    TABLE = None
     res['wall_s'] = round(time.perf_counter() - t0, 2)
     log('%s state search dev<=%d: %d states, %d executions, %d rounds, '
         '%.1fs, exhaustive=%s' % (cfgname, max_dev, res['states'],
                                   res['runs'], res['rounds'], res['wall_s'],
                                   res['exhaustive']))
     return res
+
+
+class LocalTable:
+    """Same interface on a plain set (replay / single process)."""
+
+    def __init__(self):
+        self.set = set()
+        self.added = 0
+
+    def add(self, h):
+        if h in self.set:
+            return False
+        self.set.add(h)
+        self.added += 1
+        return True
 
 
 def make_pool(workers):
